@@ -29,7 +29,14 @@ func (d *Pegnetd) GetPegNetRateAverages(ctx context.Context, height uint32) (Avg
 		ratesOverPeriod = map[fat2.PTicker][]uint64{} //          create one.
 	}
 
+	heightsOverPeriod := d.lastAveragesDataHeights //           The height each collected value belongs to
+	if heightsOverPeriod == nil {
+		heightsOverPeriod = map[fat2.PTicker][]uint32{}
+	}
+
 	defer func() { //                                           Always set up the cache when exiting the routine
+		d.lastAveragesDataHeights = heightsOverPeriod
+
 		d.LastAveragesData = ratesOverPeriod //                   Save the data we used to create averages
 		d.LastAveragesHeight = height        //                   Save the height of this data
 		d.LastAverages = averages            //                   Save the averages we computed
@@ -43,6 +50,17 @@ func (d *Pegnetd) GetPegNetRateAverages(ctx context.Context, height uint32) (Avg
 			for len(ratesOverPeriod[k]) >= int(AveragePeriod) { //  If at the limit or above,
 				copy(ratesOverPeriod[k], ratesOverPeriod[k][1:])                    // Shift data down 1 element
 				ratesOverPeriod[k] = ratesOverPeriod[k][:len(ratesOverPeriod[k])-1] //   And drop off the last value
+				if len(heightsOverPeriod[k]) > 0 {
+					heightsOverPeriod[k] = heightsOverPeriod[k][1:]
+				}
+			}
+			// The window is AveragePeriod blocks of height, not AveragePeriod rates: also drop what a
+			// fresh load of [h-AveragePeriod+1, h] would not contain (blocks without rates leave holes),
+			// so that a long running node and a restarted one compute the same averages.
+			for len(heightsOverPeriod[k]) > 0 && len(heightsOverPeriod[k]) == len(ratesOverPeriod[k]) &&
+				int64(heightsOverPeriod[k][0]) < int64(h)-int64(AveragePeriod)+1 {
+				heightsOverPeriod[k] = heightsOverPeriod[k][1:]
+				ratesOverPeriod[k] = ratesOverPeriod[k][1:]
 			}
 		}
 
@@ -54,6 +72,7 @@ func (d *Pegnetd) GetPegNetRateAverages(ctx context.Context, height uint32) (Avg
 					ratesOverPeriod[k] = []uint64{} //              Allocate the slice
 				}
 				ratesOverPeriod[k] = append(ratesOverPeriod[k], v) // Add the rates we find
+				heightsOverPeriod[k] = append(heightsOverPeriod[k], h)
 			}
 		}
 	}
@@ -66,6 +85,9 @@ func (d *Pegnetd) GetPegNetRateAverages(ctx context.Context, height uint32) (Avg
 			if v != nil {
 				ratesOverPeriod[k] = ratesOverPeriod[k][:0]
 			}
+		}
+		for k := range heightsOverPeriod {
+			heightsOverPeriod[k] = heightsOverPeriod[k][:0]
 		}
 		startHeightS := int64(height) - (int64(AveragePeriod)) + 1 // startHeight is AveragePeriod before height+1
 		//                                                            (add 1 so the block at height is included)
